@@ -853,6 +853,17 @@ class MockCA:
             other = self.vc.must("make_leaf", issuer_cert=self.issuer["cert_pem"], issuer_key=self.issuer["key_pem"], key_type="ecdsa_p256",
                                  dns=["mixed-up.example.org"], ips=[])
             body = other["cert_pem"].encode()
+        elif fault in ("ok:issuer_first", "ok:other_then_leaf"):
+            # every block is genuine and the certificate for the CSR's key is in there - but it is not the first one, which is
+            # the one RFC 8555 9.1 makes the end-entity certificate and the one every user of the file reads
+            blocks = [b + "-----END CERTIFICATE-----\n" for b in c["pem"].split("-----END CERTIFICATE-----\n") if b.strip()]
+            if fault == "ok:issuer_first" and len(blocks) >= 2:
+                body = "".join(blocks[1:] + blocks[:1]).encode()
+            else:
+                other = self.vc.must("make_leaf", issuer_cert=self.issuer["cert_pem"], issuer_key=self.issuer["key_pem"], key_type="ecdsa_p256",
+                                     dns=["mixed-up.example.org"], ips=[])
+                first = other["cert_pem"].split("-----END CERTIFICATE-----\n")[0] + "-----END CERTIFICATE-----\n"
+                body = (first + "".join(blocks)).encode()
         ev["detail"] = {"cert": obj, "order": c["order"], "sha": hashlib.sha256(body).hexdigest(), "len": len(body),
                         "spki": c["spki"], "genuine": body == genuine_body}
         return 200, {"Content-Type": "application/pem-certificate-chain", "Replay-Nonce": self.new_nonce()}, body
